@@ -888,10 +888,14 @@ public:
 	    \param sz size of string
 	    \param tag tag to extract to
 	    \param val value to extract to
-	    \return number of bytes consumed */
-	static unsigned extract_element(const char *from, const unsigned sz, char *tag, char *val)
+	    \param tag_sz capacity of tag buffer (including terminator)
+	    \param val_sz capacity of val buffer (including terminator)
+	    \return number of bytes consumed, 0 if no element found or the element does not fit the buffers */
+	static unsigned extract_element(const char *from, const unsigned sz, char *tag, char *val,
+		const unsigned tag_sz=FIX8_MAX_FLD_LENGTH, const unsigned val_sz=FIX8_MAX_FLD_LENGTH)
 	{
 		enum { get_tag, get_value } state(get_tag);
+		const char *const tag_end(tag + tag_sz - 1), *const val_end(val + val_sz - 1); // keep room for the terminators
 
 		for (unsigned ii(0); ii < sz; ++ii)
 		{
@@ -904,6 +908,8 @@ public:
 						return *val = *tag = 0;
 					state = get_value;
 				}
+				else if (tag == tag_end)	// tag too long for buffer
+					return *val = *tag = 0;
 				else
 					*tag++ = from[ii];
 				break;
@@ -913,6 +919,8 @@ public:
 					*val = *tag = 0;
 					return ++ii;
 				}
+				if (val == val_end)	// value too long for buffer
+					return *val = *tag = 0;
 				*val++ = from[ii];
 				break;
 			}
@@ -925,24 +933,31 @@ public:
 	    \param sz size of string
 	    \param tag tag to extract to
 	    \param val_sz size of value to be extracted, not including field separator
-	    \param val value to extract to
-	    \return number of bytes consumed */
-	static unsigned extract_element_fixed_width(const char *from, const unsigned sz, const unsigned val_sz, char *tag, char *val)
+	    \param val value to extract to (capacity must be at least val_sz + 1)
+	    \param tag_sz capacity of tag buffer (including terminator)
+	    \return number of bytes consumed, 0 if no element found, the tag does not fit or the value is not followed by a field separator */
+	static unsigned extract_element_fixed_width(const char *from, const unsigned sz, const unsigned val_sz, char *tag, char *val,
+		const unsigned tag_sz=FIX8_MAX_FLD_LENGTH)
 	{
 		*val = *tag = 0;
+		const char *const tag_end(tag + tag_sz - 1);
 		for (unsigned ii(0); ii < sz; ++ii)
 		{
 			if(isdigit(from[ii]))
 			{
+				if (tag == tag_end)	// tag too long for buffer
+					break;
 				*tag++ = from[ii];
 				continue;
 			}
 
-			if (from[ii++] != default_assignment_separator || sz < (ii + val_sz))
+			// the value must be followed by the field separator it is charged for
+			if (from[ii++] != default_assignment_separator || sz < (ii + val_sz + 1) || from[ii + val_sz] != default_field_separator)
 				break;
 
 			::memcpy(val, &from[ii], val_sz);
 			val[val_sz] = 0;
+			*tag = 0;
 			return ii + val_sz + 1; // account for field separator
 		}
 		return *val = *tag = 0;
